@@ -52,7 +52,7 @@ RULES = [
  ("aggregate/keeper/proposals.go", "Keeper.UpdateTokenPairERC20", "index", "pair.Denoms[0]", L, "TM.NoPanic.updatePair_no_panic with the store invariant AValid (agenesis_no_panic, registerCoin_valid, addCoin_valid, registerERC20_valid, toggleRelay_valid, updatePair_valid)"),
  ("aggregate/keeper/token_pairs.go", "", "must-call", "", S, CODEC),
  ("aggregate/proposal_handler.go", "handleEnableTimeBasedSupplyLimitProposal", "unchecked-ok", "", L, "TM.NoPanic.enableLimit_no_panic (ValidateBasic checks `valid` of all four SetString calls)"),
- ("aggregate/types/genesis.go", "GenesisState.Validate", "index", "b.Denoms[0]", V, "a pair without denominations panics inside the validator: the genesis is not accepted (modelled: aValidateLoop = panic); InitGenesis is guarded by TM.NoPanic.agenesis_no_panic"),
+ # (ccb0d33: GenesisState.Validate checks len(b.Denoms) == 0 first and no longer indexes Denoms[0]: no site left there)
  ("aggregate/types/proposal.go", "validateIBC", "index", "denomSplit[0]", S, "strings.SplitN(s, sep, 2) returns at least one element"),
  ("aggregate/types/proposal.go", "ValidateAggregateDenom", "index", "", G, "len(denomSplit) != 2 is tested first in the same condition / just above"),
  ("aggregate/types/token_pair.go", "TokenPair.GetID", "index", "tp.Denoms[0]", L, "store invariant AValid: TM.NoPanic.toggleRelay_no_panic, addCoin_no_panic, registerCoin_no_panic, registerERC20_no_panic, updatePair_no_panic, agenesis_no_panic"),
